@@ -251,6 +251,7 @@ func propC03(t *rapid.T) {
 		}
 	}
 	nAtt := rapid.IntRange(1, 4).Draw(t, "attempts")
+	var lastSigned *wire.MsgTx
 	var pattern []string
 	sawOK, sawFail := false, false
 	for a := 0; a < nAtt; a++ {
@@ -260,6 +261,20 @@ func propC03(t *rapid.T) {
 			pass = rapid.SampledFrom(wrongs).Draw(t, "wrongPass")
 		}
 		work := cloneTx(unsigned)
+		start := "unsigned"
+		if lastSigned != nil && rapid.IntRange(0, 2).Draw(t, "fromSigned") == 0 {
+			// the transaction as it came back from an earlier successful attempt: it carries witnesses
+			// already, and is signed again (a wrong passphrase must still be refused)
+			work, start = cloneTx(lastSigned), "signed-before"
+			w.flag("resign-a-signed-transaction")
+		} else if rapid.IntRange(0, 5).Draw(t, "staleWitness") == 0 {
+			// witnesses that do not belong to the transaction (left over from an edit): signing replaces them
+			for _, in := range work.TxIn {
+				in.Witness = wire.TxWitness{rapid.SliceOfN(rapid.Byte(), 0, 80).Draw(t, "staleSig"), rapid.SliceOfN(rapid.Byte(), 0, 40).Draw(t, "staleScript")}
+			}
+			start = "stale-witness"
+			w.flag("sign-over-stale-witnesses")
+		}
 		var out []byte
 		var err error
 		if rapid.IntRange(0, 2).Draw(t, "viaAPI") == 0 {
@@ -286,7 +301,7 @@ func propC03(t *rapid.T) {
 			out, err = w.env.W.SignRawTx([]byte(pass), flagName, work)
 		}
 		if !useRight {
-			pattern = append(pattern, "wrong")
+			pattern = append(pattern, "wrong/"+start)
 			sawFail = true
 			if err == nil {
 				t.Fatalf("SignRawTx accepted passphrase %q (right one is %q)", pass, right)
@@ -295,13 +310,13 @@ func propC03(t *rapid.T) {
 				t.Fatalf("SignRawTx with a wrong passphrase returned %d bytes", len(out))
 			}
 			for i, in := range work.TxIn {
-				if in.Witness.PlainSize() != 0 && len(in.Witness) != 0 {
+				if start == "unsigned" && in.Witness.PlainSize() != 0 && len(in.Witness) != 0 {
 					t.Fatalf("SignRawTx with a wrong passphrase left a witness on input %d", i)
 				}
 			}
 			continue
 		}
-		pattern = append(pattern, "right")
+		pattern = append(pattern, "right/"+start)
 		sawOK = true
 		if err != nil {
 			t.Fatalf("SignRawTx(right passphrase, %s) failed: %v\n  inputs: %s\n  %s", flagName, err, describeIns(ins), w.journalTail(10))
@@ -313,6 +328,7 @@ func propC03(t *rapid.T) {
 		if err := sameNonWitness(unsigned, &signed); err != nil {
 			t.Fatalf("SignRawTx altered the transaction: %v", err)
 		}
+		lastSigned = cloneTx(&signed)
 		hc := txscript.NewTxSigHashes(&signed)
 		for i, sc := range ins {
 			wit := signed.TxIn[i].Witness
